@@ -313,6 +313,25 @@ def run(facts, rep, tier):
                     rep.add(Finding("R15.4", "%s : -o letters iterated through %s" % (sb.name, "+".join(bad)),
                                     "the -o letters are not applied in the order given (%s): the last letter no longer decides" % bad,
                                     span_loc(t.get("span"))))
+    # the char match must run for every letter of every -o string: it post-dominates the inner loop's item edge
+    inner_next = None
+    for bi in lblocks:
+        t = sb.blocks[bi]["term"]
+        if t["k"] == "call" and t["callee"].get("name") == "next" and bi in lblocks and h in scfg.reachable_from(bi) :
+            if inner_next is None or len([x for x in loops if bi in loops[x]]) >= len([x for x in loops if inner_next in loops[x]]):
+                inner_next = bi
+    if inner_next is not None:
+        # blocks reachable from the `next` call without passing the switch, that can reach the loop's back edge => the match can be skipped
+        r = scfg.reachable_from(sb.blocks[inner_next]["term"]["target"], avoid={swbb})
+        skipped = [a for a, hh in scfg.back_edges() if hh == h and a in r]
+        # (the None edge of `next` leaves the loop, it is not a skip)
+        somes = [x for x in skipped]
+        ok = not somes
+        rep.oblige(ok, ("match-always",))
+        if not ok:
+            rep.add(Finding("R15.4", "%s : a -o letter can be skipped" % sb.name,
+                            "the per-letter sort is not applied for every letter of -o (a condition can skip the match): the last key letter no longer decides the order",
+                            span_loc(swt.get("span"))))
     starts = {}
     for v, b in swt["targets"]:
         starts[chr(int(v))] = b
